@@ -1193,6 +1193,7 @@ func funcsCmd(a Args) {
 	m.calls(u)
 	fnErrorIdentityOracle(m)
 	fnConcurrentOracle(m)
+	fnHistoryOracle(m)
 	s.stats["universe:TFull"] = len(u.TFull)
 	s.stats["universe:SFull"] = len(u.SFull)
 	s.stats["universe:handlerParamLists"] = len(u.HP)
